@@ -158,6 +158,212 @@ theorem annot_ok (P : Powers) (exc : Nat → Nat → Bool)
           · simp only [hs2, Bool.false_eq_true, if_false, decide_eq_false_iff_not] at hb
             simp only [Powers.pbp, hs, hs2, Bool.false_eq_true, if_false] at hadm ⊢; omega
 
+theorem strip_annotW (P : Powers) (exc : Nat → Nat → Bool) (br : Head → Head → Nat → Bool → Bool) (e : Expr) :
+    (annotW P exc br e).strip = e := by
+  induction e with
+  | atom n => simp [annotW, PExpr.strip]
+  | bin k l r ihl ihr => simp [annotW, PExpr.strip, strip_wrap, ihl, ihr]
+  | pre k x ih => simp [annotW, PExpr.strip, strip_wrap, ih]
+
+theorem annotW_nb (P : Powers) (exc : Nat → Nat → Bool) (e : Expr) : annotW P exc (nb P exc) e = annot P exc e := by
+  induction e with
+  | atom n => rfl
+  | bin k l r ihl ihr => simp [annotW, annot, ihl, ihr]
+  | pre k x ih => simp [annotW, annot, ih]
+
+theorem head_ok (ok : Head → Bool) (e : Expr) (h : headsIn ok e = true) (hne : ∀ n, e ≠ .atom n) : ok e.head = true := by
+  cases e with
+  | atom n => exact absurd rfl (hne n)
+  | bin k l r => simp only [headsIn, Bool.and_eq_true] at h; exact h.1.1
+  | pre k x => simp only [headsIn, Bool.and_eq_true] at h; exact h.1
+
+/-- `need` never asks for parentheses around an atom -/
+theorem need_atom (P : Powers) (p : Head) (i : Nat) : need P p .atom i = false := by
+  cases p <;> rfl
+
+/-- **Every sufficient bracket rule produces admissible parentheses** (outside the exception on right operands;
+    `ok` delimits the heads for which sufficiency is known, e.g. the real table). -/
+theorem annotW_ok (P : Powers) (exc : Nat → Nat → Bool) (br : Head → Head → Nat → Bool → Bool) (ok : Head → Bool)
+    (hpos : ∀ k, 0 < P.bp k) (hs : Suff P exc br ok) :
+    ∀ (e : Expr) (m f : Nat), headsIn ok e = true → hasExc P exc e = false → Adm P e m f →
+      Ok P (annotW P exc br e) m f := by
+  intro e
+  induction e with
+  | atom n => intro m f _ _ _; simp [annotW, Ok]
+  | bin k l r ihl ihr =>
+    intro m f hin hne hadm
+    obtain ⟨hm, hf⟩ := hadm
+    simp only [headsIn, Bool.and_eq_true] at hin
+    obtain ⟨⟨hok, hinl⟩, hinr⟩ := hin
+    simp only [hasExc, Bool.or_eq_false_iff] at hne
+    obtain ⟨⟨hnl, hnr⟩, hnx⟩ := hne
+    simp only [annotW, Ok]
+    refine ⟨hm, hf, ?_, ?_⟩
+    · -- left operand
+      cases hb : br (.bin k) l.head 0 (chainPure P exc k (P.bp k) l) with
+      | true => exact ok_wrap_true P _ _ _ (ihl 0 0 hinl hnl (adm_zero P hpos l))
+      | false =>
+        simp only [wrap, Bool.false_eq_true, if_false]
+        apply ihl _ _ hinl hnl
+        cases l with
+        | atom n => trivial
+        | bin k2 l2 r2 =>
+          have hokc := head_ok ok (.bin k2 l2 r2) hinl (by intro n h; cases h)
+          have hn : need P (.bin k) (.bin k2) 0 = false := by
+            cases hnd : need P (.bin k) (.bin k2) 0 with
+            | false => rfl
+            | true =>
+              rcases hs _ _ _ (chainPure P exc k (P.bp k) (.bin k2 l2 r2)) hok hokc (by omega) hnd with
+                h | ⟨_, _, _, _, hi, _⟩
+              · rw [hb] at h; exact absurd h (by simp)
+              · omega
+          simp only [need, Bool.or_eq_false_iff, decide_eq_false_iff_not, Bool.and_eq_false_iff] at hn
+          have h2 := hpos k2
+          exact ⟨by omega, by omega⟩
+        | pre k2 x2 =>
+          have hokc := head_ok ok (.pre k2 x2) hinl (by intro n h; cases h)
+          have hn : need P (.bin k) (.pre k2) 0 = false := by
+            cases hnd : need P (.bin k) (.pre k2) 0 with
+            | false => rfl
+            | true =>
+              rcases hs _ _ _ (chainPure P exc k (P.bp k) (.pre k2 x2)) hok hokc (by omega) hnd with
+                h | ⟨_, _, _, hc, _⟩
+              · rw [hb] at h; exact absurd h (by simp)
+              · cases hc
+          simp only [need, decide_eq_false_iff_not] at hn
+          simp only [Adm]; omega
+    · -- right operand
+      cases hb : br (.bin k) r.head 1 (chainPure P exc k (P.bp k) r) with
+      | true => exact ok_wrap_true P _ _ _ (ihr 0 0 hinr hnr (adm_zero P hpos r))
+      | false =>
+        simp only [wrap, Bool.false_eq_true, if_false]
+        apply ihr _ _ hinr hnr
+        cases r with
+        | atom n => trivial
+        | bin k2 l2 r2 =>
+          have hokc := head_ok ok (.bin k2 l2 r2) hinr (by intro n h; cases h)
+          have hn : need P (.bin k) (.bin k2) 1 = false := by
+            cases hnd : need P (.bin k) (.bin k2) 1 with
+            | false => rfl
+            | true =>
+              rcases hs _ _ _ (chainPure P exc k (P.bp k) (.bin k2 l2 r2)) hok hokc (by omega) hnd with
+                h | ⟨K, k3, hK, hc, _, hex, hpu⟩
+              · rw [hb] at h; exact absurd h (by simp)
+              · -- the exception: excluded by `hasExc = false`
+                injection hK with hK; subst hK
+                injection hc with hc; subst hc
+                simp only [Expr.head] at hnx
+                simp [hex, hpu] at hnx
+          simp only [need, Bool.or_eq_false_iff, decide_eq_false_iff_not, Bool.and_eq_false_iff] at hn
+          obtain ⟨h1, h2⟩ := hn
+          have : ¬ P.bp k = P.bp k2 := by
+            rcases h2 with h2 | h2
+            · exact h2
+            · exact absurd (by omega : 1 > 0) h2
+          exact ⟨by omega, by omega⟩
+        | pre k2 x2 =>
+          have hokc := head_ok ok (.pre k2 x2) hinr (by intro n h; cases h)
+          have hn : need P (.bin k) (.pre k2) 1 = false := by
+            cases hnd : need P (.bin k) (.pre k2) 1 with
+            | false => rfl
+            | true =>
+              rcases hs _ _ _ (chainPure P exc k (P.bp k) (.pre k2 x2)) hok hokc (by omega) hnd with
+                h | ⟨_, _, _, hc, _⟩
+              · rw [hb] at h; exact absurd h (by simp)
+              · cases hc
+          simp only [need, decide_eq_false_iff_not] at hn
+          simp only [Adm]; omega
+  | pre k x ih =>
+    intro m f hin hne hadm
+    simp only [headsIn, Bool.and_eq_true] at hin
+    obtain ⟨hok, hinx⟩ := hin
+    simp only [hasExc] at hne
+    simp only [Adm] at hadm
+    simp only [annotW, Ok]
+    refine ⟨hadm, ?_⟩
+    cases hb : br (.pre k) x.head 0 true with
+    | true => exact ok_wrap_true P _ _ _ (ih 0 0 hinx hne (adm_zero P hpos x))
+    | false =>
+      simp only [wrap, Bool.false_eq_true, if_false]
+      apply ih _ _ hinx hne
+      cases x with
+      | atom n => trivial
+      | bin k2 l2 r2 =>
+        have hokc := head_ok ok (.bin k2 l2 r2) hinx (by intro n h; cases h)
+        have hn : need P (.pre k) (.bin k2) 0 = false := by
+          cases hnd : need P (.pre k) (.bin k2) 0 with
+          | false => rfl
+          | true =>
+            rcases hs _ _ _ true hok hokc (by omega) hnd with h | ⟨K, _, hK, _⟩
+            · rw [hb] at h; exact absurd h (by simp)
+            · cases hK
+        simp only [need, decide_eq_false_iff_not] at hn
+        show P.pbp k < P.bp k2 ∧ f ≤ P.bp k2
+        omega
+      | pre k2 x2 =>
+        have hokc := head_ok ok (.pre k2 x2) hinx (by intro n h; cases h)
+        have hn : need P (.pre k) (.pre k2) 0 = false := by
+          cases hnd : need P (.pre k) (.pre k2) 0 with
+          | false => rfl
+          | true =>
+            rcases hs _ _ _ true hok hokc (by omega) hnd with h | ⟨K, _, hK, _⟩
+            · rw [hb] at h; exact absurd h (by simp)
+            · cases hK
+        simp only [need, decide_eq_false_iff_not] at hn
+        show f ≤ P.pbp k2
+        omega
+
+/-- the hand-written rule `nb` suffices (for every table with positive infix bindings and an exception that
+    only concerns children binding at least as tightly) -/
+theorem nb_suff (P : Powers) (exc : Nat → Nat → Bool)
+    (hpos : ∀ k, 0 < P.bp k) (hexc : ∀ K k, exc K k = true → P.bp K ≤ P.bp k) :
+    Suff P exc (nb P exc) (fun _ => true) := by
+  intro p c i pure _ _ _ hn
+  cases p with
+  | atom => cases c <;> simp [need] at hn
+  | bin K =>
+    cases c with
+    | atom => simp [need] at hn
+    | pre k =>
+      left
+      simp only [need, decide_eq_true_eq, Powers.pbp] at hn
+      simp only [nb]
+      by_cases hs : P.stmt k = true
+      · simp [hs]
+      · simp only [hs, Bool.false_eq_true, if_false, decide_eq_true_eq] at hn ⊢; omega
+    | bin k =>
+      simp only [need, Bool.or_eq_true, decide_eq_true_eq, Bool.and_eq_true] at hn
+      by_cases hx : (exc K k && pure) = true
+      · simp only [Bool.and_eq_true] at hx
+        have := hexc K k hx.1
+        right
+        refine ⟨K, k, rfl, rfl, ?_, hx.1, hx.2⟩
+        rcases hn with h | ⟨_, h⟩
+        · omega
+        · exact h
+      · left
+        simp only [nb, hx, Bool.false_eq_true, if_false, Bool.or_eq_true, decide_eq_true_eq, Bool.and_eq_true]
+        exact hn
+  | pre K =>
+    cases c with
+    | atom => simp [need] at hn
+    | bin k =>
+      left
+      simp only [need, decide_eq_true_eq, Powers.pbp] at hn
+      simp only [nb]
+      by_cases hs : P.stmt K = true
+      · simp only [hs, if_true, decide_eq_true_eq] at hn; have := hpos k; omega
+      · simp only [hs, Bool.false_eq_true, if_false, decide_eq_true_eq] at hn ⊢; exact hn
+    | pre k =>
+      left
+      simp only [need, decide_eq_true_eq, Powers.pbp] at hn
+      simp only [nb]
+      by_cases hs : P.stmt K = true
+      · simp only [hs, if_true, decide_eq_true_eq] at hn; omega
+      · by_cases hs2 : P.stmt k = true
+        · simp [hs, hs2]
+        · simp only [hs, hs2, Bool.false_eq_true, if_false, decide_eq_true_eq] at hn ⊢; omega
+
 /-! ### relational parser ⇒ fuel-indexed parser -/
 
 theorem mono1 (P : Powers) : ∀ (f : Nat),
